@@ -9,6 +9,7 @@ import (
 	"os"
 	"sort"
 	"strings"
+	"sync/atomic"
 	"testing"
 	"time"
 
@@ -30,6 +31,28 @@ func TestMain(m *testing.M) {
 }
 
 func thorough() bool { return evid.Tier() == "thorough" }
+
+// Bounds for "this would never return".  Normal latencies are below a
+// millisecond; the first suspected hang of a process is given a whole minute so
+// that a loaded machine cannot produce a false alarm, later ones (the tree is
+// known to be broken then) only a few seconds so that a failing run still ends.
+var hangSeen int32
+
+func hangBound() time.Duration {
+	if atomic.LoadInt32(&hangSeen) != 0 {
+		return 5 * time.Second
+	}
+	return 60 * time.Second
+}
+
+func noteHang() { atomic.StoreInt32(&hangSeen, 1) }
+
+// undecided marks a rapid case as inconclusive (harness timeout in a property
+// that is not about hanging) and abandons it.
+func undecided(t *rapid.T, rec *evid.Rec, msg string) {
+	rec.Inconclusive(msg)
+	t.Skip("inconclusive: " + msg)
+}
 
 // ---------- generators ----------
 
